@@ -199,7 +199,7 @@ func c03(r *hx.Run) {
 	type phase struct {
 		tag    string
 		e      *histEnum
-		client *fx.Client // nil: the single-version client
+		client protocol.Client // nil: the single-version client
 		delta  uint64     // 0: the delta of the single-version client
 	}
 	var phases []phase
@@ -259,6 +259,18 @@ func c03(r *hx.Run) {
 		phases = append(phases, phase{"W", &histEnum{pool: pool, alpha: []string{"U01i", "R01i", "D0i", "U01", "U12", "V01", "R01", "D0", "U01~w"}, coords: after, depth: depthW, pubModes: "p", fixed: fixedC},
 			fx.NewClient(fx.NewVersion(pw, nil)), 1})
 	}
+	// X: one stored operation carries a protocol version the client cannot serve (the lookup fails): it is ignored, and the
+	// failed lookup changes nothing else - in particular commitment cycles stay refused
+	{
+		junk := fx.Placed{Op: pool.Get("U01b"), Time: 1, Num: 2, Published: true, Version: 77, Unknown: true}
+		depthX := 2
+		if r.Tier == "thorough" {
+			depthX = 3
+		}
+		cyc := []string{"U01", "U12", "U10", "U20", "U00", "U23", "R01", "R12", "R10", "R20", "R00", "D0", "V01", "U01~p"}
+		phases = append(phases, phase{"X", &histEnum{pool: pool, alpha: cyc, coords: after, depth: depthX, pubModes: "p", fixed: []fx.Placed{fixedC[0], junk}},
+			versionFailClient{client, 77}, 0})
+	}
 	if r.Tier == "thorough" {
 		// E: everything incl. forged at depth 3 after the create
 		phases = append(phases, phase{tag: "E", e: &histEnum{pool: pool, alpha: all, coords: after, depth: 3, pubModes: "p", fixed: fixedC}})
@@ -274,7 +286,7 @@ func c03(r *hx.Run) {
 		planned[ph.tag] = ph.e.count()
 		ph := ph
 		ph.e.run(r, func(placed []fx.Placed) {
-			cl := client
+			var cl protocol.Client = client
 			if ph.client != nil {
 				cl = ph.client
 			}
